@@ -135,6 +135,18 @@ JOBLIST_BUILDERS = {'<yash_env::job::JobList as core::default::Default>::default
 SWAPS = [re.compile(r'^core::mem::(swap|replace|take)$'), re.compile(r'^core::ptr::(write|swap|replace|copy|copy_nonoverlapping)')]
 
 
+def _private_helper_of_reviewed(F, fn, desc, allowed):
+    """fn is a non-public method of JobList whose every caller is a function reviewed for this very operation:
+    the operation was merely moved into a private helper (behaviour-preserving extraction), the review carries over."""
+    sig = F.fns.get(fn)
+    if not fn.startswith(JOBLIST + '::') or sig is None or sig.get('vis') == 'pub':
+        return False
+    callers = F.callers_of(lambda names, t: fn in names)
+    if not callers:
+        return False
+    return all((b.root, desc) in allowed for b, blk, t in callers)
+
+
 @RS.rule('C12.R1', 'K-WRITERS', 'Job::state/pid and the private JobList fields are changed only by the reviewed functions')
 def r1(cx):
     F = cx.F
@@ -187,7 +199,7 @@ def r1(cx):
                 counts[field] += 1
                 cx.fn(body.fn)
                 cx.site('%s: JobList::%s <- %s at %s' % (body.fn, field, desc, body.loc(node)))
-                if (body.root, desc) not in allowed:
+                if (body.root, desc) not in allowed and not _private_helper_of_reviewed(F, body.root, desc, allowed):
                     cx.violation(body.root, 'joblist-field:%s:%s' % (field, desc.split('::')[-1]),
                                  'JobList::%s is changed by `%s` in a function that is not reviewed for keeping the '
                                  'slab, the pid index and the current/previous selection consistent' % (field, desc),
